@@ -608,6 +608,46 @@ def run(ctx):
             r2, p2 = apply_transform(desc, ref, pred)
             report("; ".join(probs), {"mode": "direct", "ref": np.ascontiguousarray(r2), "pred": np.ascontiguousarray(p2),
                                       "implementation": var, "definition": mo})
+    # (v) large volumes (millions of voxels) holding a few small objects far apart along the first axis, in particular near its far
+    #     end: the distance computation must not depend on the size of the array (blocking, index grids, remainders)
+    n_big = ctx.scale(5, 30)
+    for bi in range(n_big):
+        nd = [2, 3, 1, 2, 3][bi % 5]
+        if nd == 1:
+            shape = (rng.randint(2_200_000, 2_600_000),)
+        elif nd == 2:
+            shape = (rng.randint(2100, 2600), rng.choice([1000, 1024, 1100]))
+        else:
+            shape = (rng.randint(140, 170), 128, rng.choice([120, 128]))
+        ref = np.zeros(shape, dtype=bool)
+        pred = np.zeros(shape, dtype=bool)
+        n0 = shape[0]
+        anchors = [rng.randint(0, 3), n0 // 2 + rng.randint(0, n0 // 8), n0 - rng.randint(1, 6), rng.randint(2 * n0 // 3, n0 - 1)]
+        for a0 in rng.sample(anchors, rng.randint(2, 4)):
+            lo = [min(max(0, a0 - rng.randint(0, 3)), n0 - 1)] + [rng.randint(0, s - 6) for s in shape[1:]]
+            size = [rng.randint(1, 4) for _ in shape]
+            sl = tuple(slice(l, min(s, l + z)) for l, z, s in zip(lo, size, shape))
+            ref[sl] = True
+            shift = [rng.choice([0, 0, 1, -1, 2]) for _ in shape]
+            sl2 = tuple(slice(min(max(0, l + d), s - 1), min(s, max(1, l + d + z))) for l, z, s, d in zip(lo, size, shape, shift))
+            if rng.random() < 0.85:
+                pred[sl2] = True
+        if not pred.any():
+            pred |= ref
+        if rng.random() < 0.3:
+            pred, ref = ref, pred
+        im = impl_eval(ref, pred)
+        mi = model_in(ref, pred)
+        mo = engine_run(701, [mi])[0]
+        ctx.count({"large_volume": list(shape), "ref_voxels": mi[1], "pred_voxels": mi[2]}, True)
+        ctx.bump(f"large-volume/{nd}d")
+        probs = compare(im, mo, None)
+        if probs:
+            ctx.violation("large volume " + str(list(shape)) + ": " + "; ".join(probs),
+                          {"mode": "large", "shape": list(shape), "ref_voxels": mi[1], "pred_voxels": mi[2], "implementation": im, "definition": mo})
+            nviol += 1
+    ctx.layers.append({"layer": "volumes of 2-3 million voxels (1-D, 2-D, 3-D) with small objects at the start, middle and far end of the first axis",
+                       "cases": n_big, "exhaustive": False}) if hasattr(ctx, "layers") else None
     # dense (shape-aware) model = shape-free model on a sample (the premise of C07_box_independent, executably)
     samp = list(range(0, len(cases), max(1, len(cases) // 300)))[:300]
     dense_in = [[list(cases[k][1].shape), ins[k][1], ins[k][2]] for k in samp]
@@ -643,6 +683,25 @@ def run(ctx):
 # ------------------------------------------------------------------ replay
 def replay(path):
     d = json.loads(open(path).read())
+    if d.get("mode") == "large":
+        # a large, almost empty volume stored as its shape and the coordinates of the foreground voxels
+        ref = np.zeros(d["shape"], dtype=bool)
+        pred = np.zeros(d["shape"], dtype=bool)
+        for v in d["ref_voxels"]:
+            ref[tuple(v)] = True
+        for v in d["pred_voxels"]:
+            pred[tuple(v)] = True
+        prime_options()
+        mo = engine_run(701, [model_in(ref, pred)])[0]
+        im = impl_eval(ref, pred)
+        e = expected_value(mo[0], mo[1]) if len(mo) == 2 and mo[0] and mo[1] else None
+        print("shape", d["shape"], "reference voxels", d["ref_voxels"], "prediction voxels", d["pred_voxels"])
+        print("definition (model): ASSD =", None if e is None else float(e), " implementation:", im)
+        probs = compare(im, mo, None)
+        for pr in probs:
+            print("PROPERTY FAILS ON THE IMPLEMENTATION:", pr)
+        print("DIFFER" if probs else "agree")
+        return 1 if probs else 0
     ref, pred = common.arr_from_json(d["ref"]), common.arr_from_json(d["pred"])
     mode = d.get("mode", "direct")
     prime_options()          # the same earlier non-default calls as in the run
